@@ -420,40 +420,32 @@ def globParseGo : Nat → Bytes → Option Glob
 
 def globParse (t : Bytes) : Option Glob := globParseGo (t.length + 1) t
 
-/-- Split a `case` pattern list at unquoted `|`, dropping blanks/newlines around the alternatives and one
-    optional leading `(`. -/
-def splitAlts : Bytes → Bytes → Bool → List Bytes
-  | cur, [], _ => [cur]
-  | cur, c :: cs, inSq =>
-      if inSq then splitAlts (cur ++ [c]) cs (c ≠ SQ)
-      else if c = SQ then splitAlts (cur ++ [c]) cs true
-      else if c = BSL then
-        match cs with
-        | e :: cs' => splitAlts (cur ++ [c, e]) cs' false
-        | [] => [cur ++ [c]]
-      else if c = BAR then cur :: splitAlts [] cs false
+/-- Split a `case` pattern list at unquoted `|`, dropping blanks/newlines around the alternatives.
+    `skip` bytes are copied verbatim (after a backslash; a bracket expression is copied as a block so that a
+    `|` inside it is not a separator). -/
+def splitAlts : Bytes → Bool → Nat → Bytes → List Bytes
+  | cur, _, _, [] => [cur]
+  | cur, inSq, skip + 1, c :: cs => splitAlts (cur ++ [c]) inSq skip cs
+  | cur, true, 0, c :: cs => splitAlts (cur ++ [c]) (c ≠ SQ) 0 cs
+  | cur, false, 0, c :: cs =>
+      if c = SQ then splitAlts (cur ++ [c]) true 0 cs
+      else if c = BSL then splitAlts (cur ++ [c]) false 1 cs
+      else if c = BAR then cur :: splitAlts [] false 0 cs
       else if c = SP ∨ c = TAB ∨ c = NL then
-        (if cur = [] ∨ (cs.dropWhile fun x => x = SP ∨ x = TAB ∨ x = NL).head? = some BAR ∨ cs.all (fun x => x = SP ∨ x = TAB ∨ x = NL)
-         then splitAlts cur cs false else splitAlts (cur ++ [c]) cs false)
+        (if cur = [] ∨ (cs.dropWhile fun x => x = SP ∨ x = TAB ∨ x = NL).head? = some BAR
+            ∨ cs.all (fun x => x = SP ∨ x = TAB ∨ x = NL)
+         then splitAlts cur false 0 cs else splitAlts (cur ++ [c]) false 0 cs)
       else if c = 91 then
-        -- a bracket expression is copied as a block so that a `|` inside it is not a separator
         match parseBracket (match cs with | 33 :: b => b | b => b) with
-        | some (s, _) =>
-            let n := s.length + 1 + (if cs.head? = some 33 then 1 else 0)
-            splitAltsSkip (cur ++ [c]) cs n
-        | none => splitAlts (cur ++ [c]) cs false
-      else splitAlts (cur ++ [c]) cs false
-where
-  splitAltsSkip : Bytes → Bytes → Nat → List Bytes
-    | cur, [], _ => [cur]
-    | cur, c :: cs, 0 => splitAlts cur (c :: cs) false
-    | cur, c :: cs, n + 1 => splitAltsSkip (cur ++ [c]) cs n
+        | some (s, _) => splitAlts (cur ++ [c]) false (s.length + 1 + (if cs.head? = some 33 then 1 else 0)) cs
+        | none => splitAlts (cur ++ [c]) false 0 cs
+      else splitAlts (cur ++ [c]) false 0 cs
 
 def parseAlts (t : Bytes) : Option (List Glob) :=
   let t' := match t.dropWhile (fun x => x = SP ∨ x = TAB ∨ x = NL) with
     | 40 :: r => r
     | r => r
-  (splitAlts [] t' false).mapM globParse
+  (splitAlts [] false 0 t').mapM globParse
 
 /-- Does the value match one of the alternatives of the pattern list `t`? `none`: pattern outside the subset. -/
 def caseMatch (t : Bytes) (s : Bytes) : Option Bool :=
